@@ -20,7 +20,7 @@ Fixpoint obs_eqb (a b : obs) : bool :=
   end.
 
 (* schedule items: (0, p) = Do p (must be enabled: a Lock taken while another process holds the lock is NOT);
-   (2, p) = p runs to its end (the process has exited: every remaining enabled action is taken) *)
+   (3, _) = the DAG definition is saved; (2, p) = p runs to its end (the process has exited: every remaining enabled action is taken) *)
 Definition finish1 (p : nat) (w : world) : world :=
   match step (Do p) w with Some w' => w' | None => w end.
 Fixpoint finish (fuel p : nat) (w : world) : world :=
@@ -32,6 +32,7 @@ Fixpoint run_items (l : list (nat * nat)) (w : world) : option world :=
   | (k, p) :: r =>
       match k with
       | 0 => match step (Do p) w with Some w' => run_items r w' | None => None end
+      | 3 => match step Save w with Some w' => run_items r w' | None => None end   (* the DAG definition is saved *)
       | _ => run_items r (finish 17 p w)
       end
   end.
